@@ -319,7 +319,13 @@ func (s *Server) handleDiscovery(clientMAC net.HardwareAddr, data []byte) {
 		return
 	}
 
-	payload := data[6 : 6+hdr.Length]
+	// The length field comes from the wire: it must not reach beyond the received frame
+	// (and 6+Length must not be computed in 16 bits, where it wraps around).
+	if int(hdr.Length) > len(data)-6 {
+		s.logger.Debug("PPPoE length field exceeds frame", zap.Uint16("length", hdr.Length), zap.Int("frame", len(data)))
+		return
+	}
+	payload := data[6 : 6+int(hdr.Length)]
 	tags, err := ParseTags(payload)
 	if err != nil {
 		s.logger.Debug("Invalid PPPoE tags", zap.Error(err))
